@@ -67,7 +67,7 @@ func c12Candidate(t *rapid.T, label string, wantValid bool) ([]byte, string) {
 
 func TestVerif_C12_GenerateKey(t *testing.T) {
 	rec := stats.Get("C12", "generatekey")
-	rec.Rule("rapid: randomness stream = 0..4 out-of-range 32-byte candidates (0, n-1, n, n+1, 2^256-1, uniform >= n-1) followed by a valid one (uniform, 1, 2, n-2, n-3, leading zeros) and 0..40 trailing bytes. Oracle: GenerateKey returns err=nil, priv = the first candidate in [1,n-2], exactly 32 bytes consumed per candidate, (x,y) = sm2ref.Mul(d,G) as 32-byte strings; no panic. Non-trivial: at least one rejected candidate or a boundary key; distinct by stream.")
+	rec.Rule("rapid: randomness stream = 0..4 out-of-range 32-byte candidates (0, n-1, n, n+1, 2^256-1, uniform >= n-1) followed by a valid one (uniform, 1, 2, n-2, n-3, leading zeros) and 0..40 trailing bytes; the reader delivers whole requests or short reads of 1/7/16/31 bytes. Oracle: GenerateKey returns err=nil, priv = the first candidate in [1,n-2], exactly 32 bytes consumed per candidate, (x,y) = sm2ref.Mul(d,G) as 32-byte strings; no panic. Non-trivial: at least one rejected candidate or a boundary key; distinct by stream.")
 	t.Cleanup(stats.FlushAll)
 	rapid.Check(t, func(t *rapid.T) {
 		nrej := gen.Int(t, "nrej", 0, 4)
@@ -87,6 +87,10 @@ func TestVerif_C12_GenerateKey(t *testing.T) {
 		r := gen.Rand(t, "trail")
 		stream = append(stream, gen.RandBytes(r, gen.Int(t, "trailing", 0, 40))...)
 		rd := newStream(stream)
+		if gen.Int(t, "chunked", 0, 2) == 0 {
+			rd.chunk = []int{1, 7, 16, 31}[gen.Uniform(t, "chunk", 0, 3)] // a reader may return fewer bytes than asked for
+			cls = append(cls, "short-reads")
+		}
 		var priv, x, y []byte
 		var err error
 		if p := vt.Catch(func() { priv, x, y, err = sm2.GenerateKey(rd) }); p != nil {
